@@ -76,13 +76,13 @@ def mps_of(ctx, v, unit):
     return v * si.SPEED_MPS[unit]
 
 
-def mkrow(p, time=0.0, dist_ft=0.0, height_ft=0.0, drop_ft=0.0, vel_fps=1000.0, flag=8, mach=1.0):
+def mkrow(p, time=0.0, dist_ft=0.0, height_ft=0.0, drop_ft=0.0, vel_fps=1000.0, flag=8, mach=1.0, look_ft=None):
     """a real TrajectoryData row with the given (possibly symbolic) columns; other columns concrete"""
     U = p.Unit
     return p.TrajectoryData(time=time, distance=p.Distance.Foot(dist_ft), velocity=p.Velocity.FPS(vel_fps), mach=mach,
                             height=p.Distance.Foot(height_ft), target_drop=p.Distance.Foot(drop_ft),
                             drop_adj=p.Angular.Radian(0.0), windage=p.Distance.Foot(0.0), windage_adj=p.Angular.Radian(0.0),
-                            look_distance=p.Distance.Foot(dist_ft), angle=p.Angular.Radian(0.0), density_factor=0.0,
+                            look_distance=p.Distance.Foot(dist_ft if look_ft is None else look_ft), angle=p.Angular.Radian(0.0), density_factor=0.0,
                             drag=0.0, energy=p.Energy.FootPound(0.0), ogw=p.Weight.Pound(0.0), flag=flag)
 
 
